@@ -1,3 +1,4 @@
+import PyemvProofs.TlvOffender
 import PyemvProofs.TlvEncode
 import PyemvProps.C09
 /-!
@@ -61,6 +62,25 @@ theorem encode_error (si : Bool) (t : List (PyStr × PyVal)) (h : ¬ WFTree si t
   cases he : encode si t with
   | ok b => exact absurd (ok_wf si t b he) h
   | error e => exact ⟨e, rfl, encodeItems_err si t e he⟩
+
+/-- **the error names the offending tag** — the *first* one in evaluation order: the pair it names has a fault
+of its own (`ItemFault`: a name that is not the hex name of exactly one tag, a value of the wrong kind for
+the tag, a non-hex value string, or more than 255 value bytes in simple mode), every pair evaluated before
+it — earlier in its mapping, at every enclosing level — is well-formed, and every enclosing template has a
+valid constructed tag.  Conversely a tree with such an offender is never well-formed. -/
+theorem encode_error_names_first_offender (si : Bool) (t : List (PyStr × PyVal)) (h : ¬ WFTree si t) :
+    ∃ e, encode si t = .error e ∧ FirstOffender si e.tag t := by
+  cases he : encode si t with
+  | ok b => exact absurd (ok_wf si t b he) h
+  | error e => exact ⟨e, rfl, encodeItems_offender si t e he⟩
+
+theorem first_offender_is_offending (si : Bool) (k : PyStr) (t : List (PyStr × PyVal)) (h : FirstOffender si k t) :
+    ¬ WFTree si t := offender_not_wf h
+
+/-- non-vacuity: the second of two bad pairs is not the one named -/
+example : FirstOffender false ['G', 'G'] [(['9', 'C'], .bytes [1]), (['G', 'G'], .bytes []), (['9'], .other)] :=
+  FirstOffender.later (WFTree.bytes (t := [0x9C]) rfl rfl (by intro h; cases h) WFTree.nil)
+    (FirstOffender.here (ItemFault.name rfl))
 
 /-- non-vacuity: a concrete mixed-case, nested tree is well-formed and encodes to the documented bytes -/
 example : ∃ b, encode false [(['9', 'c'], .bytes [1]), (['E', '0'], .dict [(['5', 'F', '2', 'A'], .str ['0', '2', '0', '8'])])]
